@@ -130,7 +130,10 @@ def get_facts(repo=None, verbose=False):
         else:
             t0 = time.time()
             tmp = os.path.join(CACHE, 'facts', 'tmp-%d.json' % os.getpid())
-            tdir = os.path.join(CACHE, 'target' if os.path.abspath(repo) == '/repo' else 'target-' + hashlib.sha1(os.path.abspath(repo).encode()).hexdigest()[:8])
+            # /repo has its own target dir; every scratch copy (mutest / liveness / confirmseeds) shares one: extractions are serialised by the lock above
+            tdir = os.path.join(CACHE, 'target' if os.path.abspath(repo) == '/repo' else 'target-scratch')
+            if not os.path.exists(tdir) and os.path.exists(os.path.join(CACHE, 'target')) and os.path.abspath(repo) != '/repo':
+                subprocess.run(['cp', '-r', os.path.join(CACHE, 'target'), tdir], check=False)   # dependencies' artefacts are path-independent: no cold build
             facts, log = _run_driver(repo, ['-p', 'quizx', '--lib'], 'quizx', tmp, tdir, 'quizx-*')
             if facts is None:
                 raise BuildError(log[-4000:])
